@@ -16,6 +16,7 @@ tier = opt("--tier", "quick")
 seeds = [int(x) for x in opt("--seeds", "1").split(",")]
 only = set(opt("--only", "").split(",")) - {""}
 props = set(opt("--props", "").split(",")) - {""}
+as_prop = opt("--as", "")  # run another property's check against the selected seeds (result stored as result-<PROP>.json)
 root = "/verif/seeded"
 summary = []
 baseline_ok = {}
@@ -35,9 +36,9 @@ for sid in sorted(os.listdir(root)):
     meta = json.load(open(mp))
     if only and sid not in only:
         continue
-    if props and meta["property"] not in props:
+    if props and meta["property"] not in props and not as_prop:
         continue
-    prop = meta["property"]
+    prop = as_prop or meta["property"]
     if not os.path.exists("/verif/harness/props/%s/prop.json" % prop.lower()):
         summary.append((sid, prop, "no check yet"))
         continue
@@ -67,7 +68,7 @@ for sid in sorted(os.listdir(root)):
                 caught = True
                 break
         res["caught"] = caught
-        json.dump(res, open(os.path.join(d, "result.json"), "w"), indent=1)
+        json.dump(res, open(os.path.join(d, "result-%s.json" % prop if as_prop else "result.json"), "w"), indent=1)
         summary.append((sid, prop, "CAUGHT" if caught else "missed (exits %s)" % [r["exit"] for r in res["runs"]]))
     finally:
         subprocess.run(["git", "-C", "/repo", "worktree", "remove", "--force", wt])
